@@ -46,3 +46,9 @@ int verif_caught;   /* class of the exception most recently caught */
 
 #define VERIF_MAXLEN 100000
 #define VERIF_ABS(x) ((x) < 0 ? -(x) : (x))
+
+/* std::copy_n / fill_n on raw char ranges: assumed contracts (C++ standard), used via --replace-call-with-contract
+   or, in unwind-mode pipelines, through these simple bodies */
+#ifdef VERIF_STUB_BODIES
+char* copy_n(const char* src, size_t n, char* dst) { for (size_t i = 0; i < n; ++i) dst[i] = src[i]; return dst + n; }
+#endif
